@@ -37,6 +37,10 @@ mod ws;
 
 pub use task::RemoteTask;
 
+/// Re-exports of crate-private components for the external verification harness.
+#[cfg(feature = "verif_hooks")]
+pub use task::verif;
+
 pub use net::{
     BadWarpUrl, ClientConnections, ConnectionError, ExternalConnections, Listener, ListenerError,
     Scheme, SchemeHostPort, ServerConnections,
